@@ -62,18 +62,24 @@ func genMutationAlt(r *RNG) (string, []string, string) {
 	var tops []top
 	for i := 0; i < n; i++ {
 		key := fmt.Sprintf("k%d", i+1)
-		var field, typ string
+		var field, typ, chain string
 		switch r.Intn(10) {
 		case 0, 1:
 			field, typ = fmt.Sprintf("s%d(v:%d)", 1+r.Intn(2), i), ""
 		case 2:
 			field, typ = "deep", "Deep"
+			if r.Chance(40) {
+				// a long chain of nested objects (recursive type) with a leaf at the bottom
+				depth := []int{6, 20, 33, 34, 40, 70}[r.Intn(6)]
+				chain = " " + strings.Repeat("{ d ", depth) + "{ v vNN }" + strings.Repeat(" }", depth)
+				typ = ""
+			}
 		case 3:
 			field, typ = `node(as:"B")`, "Node"
 		default:
 			field, typ = fmt.Sprintf("m%d(v:%d)", 1+r.Intn(6), i), "B"
 		}
-		sel := ""
+		sel := chain
 		if typ != "" {
 			subs := c13Subs[typ]
 			var parts []string
@@ -82,7 +88,7 @@ func genMutationAlt(r *RNG) (string, []string, string) {
 			}
 			sel = " { " + strings.Join(parts, " ") + " }"
 		}
-		tops = append(tops, top{key, field, sel, []string{"plain", "plain", "inline", "spread", "dup"}[r.Intn(5)]})
+		tops = append(tops, top{key, field, sel, []string{"plain", "plain", "inline", "spread", "dup", "bare", "bare-nested"}[r.Intn(7)]})
 	}
 	var body, frags []string
 	var keys []string
@@ -93,6 +99,10 @@ func genMutationAlt(r *RNG) (string, []string, string) {
 		switch t.place {
 		case "inline":
 			body = append(body, "... on Mutation { "+f+" }")
+		case "bare":
+			body = append(body, "... { "+f+" }")
+		case "bare-nested":
+			body = append(body, "... { ... @include(if:true) { ... { "+f+" } } }")
 		case "spread":
 			body = append(body, fmt.Sprintf("...F%d", i))
 			frags = append(frags, fmt.Sprintf("fragment F%d on Mutation { %s }", i, f))
